@@ -227,5 +227,116 @@ func Families(tier string) []Family {
 		}
 		fams = append(fams, f)
 	}
+
+	// tree: command trees with functions, own options, wrappers, help (C10)
+	{
+		f := Family{Name: "tree"}
+		toks := Ts("a", "b", "s", "w", "--r", "--r=a", "--ao", "--so", "--", "x", "help", "--help", "--u")
+		for mode := 0; mode < 3; mode += 2 {
+			for variant := 0; variant < 3; variant++ {
+				c := Cfg{Mode: mode}
+				switch variant {
+				case 0: // root fn; a(fn, own ao) -> s(fn, own so); b without fn; help
+					c.Nodes = []NodeCfg{rootNode(0, false), cmdNode("a", 1, 0, false, true), cmdNode("s", 2, 0, false, true), cmdNode("b", 1, 0, false, false)}
+					c.Nodes[0].Fn = true
+					c.Opts = []OptCfg{opt("string", "r", 1), opt("bool", "ao", 2), opt("bool", "so", 3)}
+					c = WithHelp(c, "help")
+				case 1: // root without fn; a without fn -> s fn; w wrapper; no help
+					c.Nodes = []NodeCfg{rootNode(2, false), cmdNode("a", 1, 2, false, false), cmdNode("s", 2, 2, false, true), cmdNode("w", 1, 2, false, true)}
+					c.Nodes[3].Unset = true
+					c.Opts = []OptCfg{opt("string", "r", 1), opt("bool", "ao", 2), opt("bool", "so", 4)}
+				case 2: // require-order root, commands after the stop point must not be selected; b without fn but with two children
+					c.Nodes = []NodeCfg{rootNode(0, true), cmdNode("a", 1, 0, true, true), cmdNode("b", 1, 0, true, false), cmdNode("s", 3, 0, true, true), cmdNode("w", 3, 0, true, true)}
+					c.Nodes[0].Fn = true
+					c.Opts = []OptCfg{opt("string", "r", 1), opt("bool", "ao", 2), opt("bool", "so", 4)}
+					c = WithHelp(c, "help")
+				}
+				f.Defs = append(f.Defs, Def{Cfg: c, Tokens: toks, L: lim(tier, 3, 4), Disp: true})
+			}
+		}
+		fams = append(fams, f)
+	}
+	// required: required options at every level, custom messages, env binding, help in every form (C11)
+	{
+		f := Family{Name: "required"}
+		toks := Ts("--rq", "--rq=v", "--r", "--ar", "--alt", "a", "s", "--help", "-h", "--he", "help", "x")
+		for variant := 0; variant < 4; variant++ {
+			c := Cfg{Mode: 0}
+			c.Nodes = []NodeCfg{rootNode(0, false), cmdNode("a", 1, 0, false, true), cmdNode("s", 2, 0, false, true)}
+			c.Nodes[0].Fn = true
+			rq := opt("string", "rq", 1)
+			rq.Req = true
+			ar := opt("bool", "ar", 2, "alt")
+			ar.Req = true
+			switch variant {
+			case 1:
+				rq.HasMsg, rq.ReqMsg = true, T("rq is needed")
+				ar.HasMsg, ar.ReqMsg = true, T("give --ar")
+			case 2:
+				rq.Env = T("VERIF_ENV_RQ")
+				c.Env = []EnvCfg{{Name: T("VERIF_ENV_RQ"), Val: T("fromenv")}}
+			case 3:
+				rq.Env = T("VERIF_ENV_RQ")
+				c.Env = []EnvCfg{{Name: T("VERIF_ENV_RQ"), Val: T("")}}
+				second := opt("int", "zz", 1)
+				second.Req = true
+				c.Opts = append(c.Opts, second)
+			}
+			c.Opts = append(c.Opts, rq, ar)
+			c = WithHelp(c, "help", "h")
+			f.Defs = append(f.Defs, Def{Cfg: c, Tokens: toks, L: lim(tier, 3, 4), Disp: true})
+		}
+		fams = append(fams, f)
+	}
+	// env: definition-time environment variables for every supported kind (C12)
+	{
+		f := Family{Name: "env"}
+		type ek struct {
+			kind            string
+			valid, invalid  string
+			mixed, deflt    string
+			cliVal, cliVal2 string
+		}
+		for _, k := range []ek{
+			{"bool", "true", "yes", "TrUe", "false", "", ""},
+			{"string", "fromenv", "", "MiXed", "def", "x", "y"},
+			{"int", "5", "5x", "+5", "7", "3", "4"},
+			{"float", "2.5", "x", "2.5E0", "7.5", "1.5", "3"},
+			{"sopt", "fromenv", "", "MiXed", "def", "x", "y"},
+			{"iopt", "5", "5x", "+5", "7", "3", "4"},
+			{"fopt", "2.5", "x", "2.5E0", "7.5", "1.5", "3"},
+			{"incr", "5", "x", "5", "0", "", ""},
+			{"sslice", "a", "", "A", "", "x", "y"},
+		} {
+			toks := Ts("--o", "--al", "--ot", "z")
+			if k.cliVal != "" {
+				toks = append(toks, T("--o="+k.cliVal), T(k.cliVal), T(k.cliVal2))
+			} else {
+				toks = append(toks, T("--o=false"), T("--o=true"))
+			}
+			for ei, ev := range []string{"<unset>", "", k.valid, k.invalid, k.mixed, k.deflt, "false", "FALSE"} {
+				if ei >= 6 && k.kind != "bool" {
+					continue
+				}
+				for _, defb := range []bool{false, true} {
+					if defb && k.kind != "bool" {
+						continue
+					}
+					c := Cfg{Mode: 0}
+					c.Nodes = []NodeCfg{rootNode(0, false)}
+					o := multi(k.kind, "o", 1, 1, 2, "al")
+					o.DefB = defb
+					o.Env = T("VERIF_ENV_O")
+					other := opt("bool", "ot", 1)
+					c.Opts = []OptCfg{o, other}
+					if ev != "<unset>" {
+						c.Env = []EnvCfg{{Name: T("VERIF_ENV_O"), Val: T(ev)}}
+					}
+					f.Defs = append(f.Defs, Def{Cfg: c, Tokens: toks, L: lim(tier, 2, 3)})
+				}
+			}
+		}
+		fams = append(fams, f)
+	}
 	return fams
 }
